@@ -77,6 +77,24 @@ func (ex *Explorer) Run() *Results {
 	start := time.Now()
 	ex.queue = [][]decision{nil}
 	var wg sync.WaitGroup
+	done := make(chan struct{})
+	if os.Getenv("GOSYM_PROGRESS") != "" {
+		go func() {
+			t := time.NewTicker(10 * time.Second)
+			defer t.Stop()
+			for {
+				select {
+				case <-done:
+					return
+				case <-t.C:
+					ex.mu.Lock()
+					fmt.Fprintf(os.Stderr, "[progress] paths=%d completed=%d queue=%d active=%d aborted=%v\n", ex.res.Paths, ex.res.Completed, len(ex.queue), ex.active, ex.res.Aborted)
+					ex.mu.Unlock()
+				}
+			}
+		}()
+	}
+	defer close(done)
 	for w := 0; w < ex.workers; w++ {
 		wg.Add(1)
 		go func() {
